@@ -113,6 +113,20 @@ CLAIMED = {
         "metacharacter: add_class stores the token escaped, has_class compares raw). css() keyword names are ASCII.",
    tech="Coq proof (induction over strings, token lists and operation histories) + differential correspondence",
    ref="6 C16"),
+ "C17": dict(
+   text="Machine-checked theorems over a big-step semantics of programs built from Display / with-blocks / Raise that "
+        "transcribes Tag.__enter__/__exit__, wrap_displayhook_handler and Python's with protocol: for every program "
+        "and nesting, with or without exceptions at any point, the hook after each block is the hook at entry; the "
+        "run refines a hook-free lexical specification (children appended in order under the child rules, None and "
+        "Ellipsis ignored, _repr_html_ kept as HTML, invalid values raise TypeError); each entered tag is delivered "
+        "exactly once, last, to the hook current at entry; entering an active tag raises and changes nothing. Tied "
+        "to the code by compiling random and bounded-exhaustive programs to real nested with statements executed "
+        "with a recording base hook.",
+   note=TB + "That sys.displayhook is a per-interpreter global touched by nothing else while a program runs, and that "
+        "CPython implements the documented with protocol, are runtime facts the model cannot exhibit (partial there). "
+        "A tag cannot be re-entered after its block exited (the statement is silent; model follows the code).",
+   tech="Coq proof (structural induction over nested programs, refinement to a lexical spec) + differential correspondence",
+   ref="6 C17"),
  "C19": dict(
    text="Finite theorems decided by kernel computation over tables regenerated from tags.py, svg.py, __init__.py "
         "and scripts/generate_tags.py on every run (all 113+66 wrappers have the exact pass-through shape, own "
